@@ -10,7 +10,7 @@ THEOREMS = {
     'C06': TABLES + ['BB.Props.C01.enc32_sound', 'BB.Props.C02.enc16_sound'] +
            ['BB.Props.C06.' + n for n in ('complete32', 'accept32_iff_legal', 'complete16', 'accept16_iff_legal',
                                          "accept16_iff_legal'", 'refused_no_word')],
-    'C03': ['BB.Lemmas.walk_layout', 'BB.Props.C03.assemble_layout'] + ['BB.Props.C03.' + n for n in ['instrStep_bytes', 'branch_lands', 'jal_lands', 'cj_lands', 'cb_lands', 'far_pair_offsets']] + ['BB.Props.C08.imm_walk_positions', 'BB.Props.C08.offset_value', 'BB.Props.C08.instr_item_value'] + ['BB.Props.C03.' + n for n in ['assemble_land', 'Land.at', 'step_branch', 'step_jal', 'step_cj', 'step_cb', 'assemble_branch_lands', 'assemble_jal_lands', 'assemble_compressed_lands']],
+    'C03': ['BB.Lemmas.walk_layout', 'BB.Props.C03.assemble_layout'] + ['BB.Props.C03.' + n for n in ['instrStep_bytes', 'branch_lands', 'jal_lands', 'cj_lands', 'cb_lands', 'far_pair_offsets']] + ['BB.Props.C08.imm_walk_positions', 'BB.Props.C08.offset_value', 'BB.Props.C08.instr_item_value'] + ['BB.Props.C03.' + n for n in ['assemble_land', 'Land.at', 'step_branch', 'step_jal', 'step_cj', 'step_cb', 'assemble_branch_lands', 'assemble_jal_lands', 'assemble_compressed_lands', 'step_auipc', 'step_jalr_pair', 'assemble_far_pair_lands']],
     'C08': ['BB.Lemmas.walk_layout', 'BB.Props.C03.assemble_layout'] + ['BB.Props.C08.' + n for n in ['imm_walk_positions', 'offset_value', 'position_value', 'hi_value', 'lo_value', 'data_item_value', 'instr_item_value', 'immBody_single']] + ['BB.Props.C07.pair_rebuilds', 'BB.Props.C03.assemble_land', 'BB.Props.C03.Land.at'] + ['BB.Props.C08.' + n for n in ['shorthand_item_value', 'shorthand_pack', 'step_shorthand', 'assemble_data_value']],
     'C09': ['BB.Lemmas.walk_layout', 'BB.Props.C03.assemble_layout'] + ['BB.Props.C09.' + n for n in ['assemble_in_order', 'Expands.parts', 'Img.bytes_of_blobs', 'align_minimal', 'align_zero', 'align_emits_zeros']],
     'C10': ['BB.Props.C10.' + n for n in ('fromLE_leBytes', 'packInt_accept_iff', 'packInt_le_value', 'packInt_be_reverse',
